@@ -61,6 +61,8 @@ def configs(tier):
                     out.append(dict(group=group, P=P, nal=nal, inbred=inbred, lo=lo, hi=min(n, lo + CHUNK)))
     out.append(dict(group="swap"))
     out.append(dict(group="orch"))
+    for nal in ORCH_WIDE_NAMES:  # loci with >= 2**63 possible haplotypes: the size of the haplotype space reaches every move as its logarithm
+        out.append(dict(group="orch", nal=nal))
     out.append(dict(group="class-wiring", cls="denovo"))  # DenovoMCMC.fit/_mcmc -> _homozygosity_probabilities / _denovo_assembler
     out.append(dict(group="cli-attrs", prog="assemble"))  # argv -> program attributes (inbreeding, temperatures, step probabilities, thresholds, seed)
     return out
@@ -424,6 +426,7 @@ def _chain_of(arr):
     return off // (arr.size * arr.itemsize)
 
 
+ORCH_WIDE_NAMES = ["wide2", "wide3", "mixed"]
 ORCH_NAL = [2, 3]  # distinctive model parameters: every move and exchange must receive exactly these
 
 
@@ -431,7 +434,7 @@ def _orch_drive(mc, temps, steps, rand, llk0, fresh_llk, np_shim, inbreeding=0):
     """run mc._denovo_assembler with recording stubs; returns (calls, genotype_trace, llk_trace)"""
     calls = []
     marker = [0]
-    reads_obj = rnp.zeros((1, 2, 3))
+    reads_obj = rnp.zeros((1, len(ORCH_NAL), 3))
     counts_obj = rnp.array([3])
 
     def mk(tag):
@@ -482,7 +485,9 @@ def _orch_drive(mc, temps, steps, rand, llk0, fresh_llk, np_shim, inbreeding=0):
         mc.log_likelihood = lambda reads, genotype, read_counts=None: llk0
         mc.np = np_shim(rand)
         fn = getattr(mc._denovo_assembler, "py_func", mc._denovo_assembler)
-        gt, lt = fn(genotype=rnp.array([[0, 1], [1, 0]], dtype=rnp.int8), inbreeding=inbreeding, reads=reads_obj, read_counts=counts_obj,
+        g_init = rnp.zeros((2, len(ORCH_NAL)), dtype=rnp.int8)
+        g_init[0, 1] = g_init[1, 0] = 1
+        gt, lt = fn(genotype=g_init, inbreeding=inbreeding, reads=reads_obj, read_counts=counts_obj,
                     n_alleles=rnp.array(ORCH_NAL, dtype=rnp.int8), steps=steps, break_dist=rnp.array([1.0]),
                     recombination_step_probability=0.5, partial_dosage_step_probability=1.0, dosage_step_probability=1.0,
                     temperatures=rnp.array(temps, dtype=float), return_heated_trace=False, llk_cache_threshold=-1)
@@ -499,13 +504,13 @@ def _orch_verify(calls, temps, steps, gt, lt, llk0, eq, num, inbreeding=None, eq
     if inbreeding is not None:
         import math
 
-        lu = math.log(float(rnp.prod(ORCH_NAL)))
+        lu = sum(math.log(a) for a in ORCH_NAL)  # ln of the number of possible haplotypes (a Python sum: the count itself may exceed 2**63)
         for cd in calls:
             # every move and every exchange works on the same target: same inbreeding, same haplotype-space size, same reads
             if cd.get("inbreeding") is None or cd.get("lu") is None:
                 return "move %s does not receive the model parameters (inbreeding / log_unique_haplotypes)" % cd["move"], []
-            if abs(num(cd["lu"]) - lu) > lu_tol:
-                return "move %s receives log_unique_haplotypes=%r (expected ln %d)" % (cd["move"], num(cd["lu"]), int(rnp.prod(ORCH_NAL))), []
+            if not abs(num(cd["lu"]) - lu) <= lu_tol * len(ORCH_NAL):  # (also false for nan)
+                return "move %s receives log_unique_haplotypes=%r (expected ln %d = %.6f)" % (cd["move"], num(cd["lu"]), math.prod(ORCH_NAL), lu), []
             if cd["move"] != "swap" and not (cd["same_reads"] and cd["same_counts"]):
                 return "move %s does not receive the sampler's reads / read counts" % cd["move"], []
             if cd.get("n_alleles") is not None and cd["n_alleles"] != ORCH_NAL:
@@ -553,7 +558,20 @@ def _orch_verify(calls, temps, steps, gt, lt, llk0, eq, num, inbreeding=None, eq
     return None, claims0 + claims
 
 
+ORCH_WIDE = {"wide2": [2] * 64, "wide3": [3] * 40 + [2], "mixed": [2] * 60 + [4, 4]}  # >= 2**63 possible haplotypes
+
+
 def _run_orch(c, col):
+    global ORCH_NAL
+    saved_nal = ORCH_NAL
+    ORCH_NAL = ORCH_WIDE.get(c.get("nal"), [2, 3])
+    try:
+        return _run_orch_(c, col)
+    finally:
+        ORCH_NAL = saved_nal
+
+
+def _run_orch_(c, col):
     E.use_summaries(True)
     E.reset_modules()
     E.cfg.concrete_ints = True
@@ -602,7 +620,7 @@ def _run_orch(c, col):
                 calls, gt, lt, llk0, F = pr.value
                 err, claims = _orch_verify(calls, temps, steps, gt, lt, llk0, lambda a, b: E.exp_term(a) == E.exp_term(b), lambda x: E.to_float(x),
                                            inbreeding=F, eqr=lambda a, b: E.real_term(a) == E.real_term(b))
-                w = dict(temps=temps, steps=steps)
+                w = dict(temps=temps, steps=steps, nal=c.get("nal"))
                 if err:
                     col.fail(site, "orchestration", witness=dict(w, why=err), desc=err, model=E.model_dict(E.prove(pr.ctx, False).model))
                 else:
@@ -846,6 +864,18 @@ def _replay_orch(v):
 
     m = v.get("model") or {}
     temps, steps = v["witness"]["temps"], v["witness"]["steps"]
+    global ORCH_NAL
+    saved_nal = ORCH_NAL
+    ORCH_NAL = ORCH_WIDE.get(v["witness"].get("nal") or v["config"].get("nal"), [2, 3])
+    try:
+        return _replay_orch_(v, m, temps, steps)
+    finally:
+        ORCH_NAL = saved_nal
+
+
+def _replay_orch_(v, m, temps, steps):
+    from mchap.assemble import mcmc as rm
+
     ui = [0]
     cnt = [0]
 
